@@ -39,6 +39,27 @@ def release_sites(ctx):
                 continue
             kind, detail, params = classify_release_guard(ctx, b, bb, with_params=True)
             out.append({"body": b, "bb": bb, "t": t, "roles": roles, "kind": kind, "detail": detail, "params": params})
+        # release by `Some(sender).filter(|_| keep)`: the sender is dropped inside `filter` exactly when `keep` is false
+        for bb, t in b.calls():
+            if callee_path(t) != "std::option::Option::<T>::filter" or len(t["args"]) < 2 or b.blocks[bb].get("cleanup"):
+                continue
+            a0 = t["args"][0]
+            if a0["k"] == "const" or ("mpsc::Sender" not in a0["pl"]["ty"] and "mpsc::bounded::Sender" not in a0["pl"]["ty"]):
+                continue
+            roles, other = m.roles_of_sources(fl.sources_operand(b, a0), half=0)
+            roles.discard(None)
+            if not roles:
+                continue
+            from rules_sched import closure_of_arg, return_expr
+            fcl = closure_of_arg(ctx, b, expr_operand(b, t["args"][1]))
+            re_ = return_expr(fcl) if fcl is not None else None
+            cls = classify_value_as_guard(ctx, fcl, re_, False) if re_ is not None else None
+            k0, d0, p0 = classify_release_guard(ctx, b, bb, with_params=True)
+            if cls is None or cls[0] == "PARAM" or k0 != "UNGUARDED":
+                kind, detail = "OTHER", "Option::filter with a predicate that is not understood"
+            else:
+                kind, detail = cls[0], "%s (predicate of Option::filter false)" % (cls[1],)
+            out.append({"body": b, "bb": bb, "t": t, "roles": roles, "kind": kind, "detail": detail, "params": []})
         # release by assignment: `holder = None`
         for bb, si, s_ in b.stmts():
             if s_["k"] != "assign" or b.blocks[bb].get("cleanup"):
@@ -150,6 +171,34 @@ def classify_value_as_guard(ctx, b, e, taken_true, at_bb=None):
     elif e.kind == "binop" and e[1] in ("Gt", "Le") and is_const(e[2], 1):
         # `1 > x` <=> `x == 0`, `1 <= x` <=> `x != 0`
         e = E(("binop", "Eq" if e[1] == "Gt" else "Ne", e[3], E(("const", "0", "usize"))))
+    if e.kind == "binop" and e[1] in ("Eq", "Ne") and not (strip_refs(e[2]).kind == "const" or strip_refs(e[3]).kind == "const"):
+        # count-up form: `done == total` with `total` the number of functions and `done` a counter that starts at 0 and is
+        # incremented by 1 (the mirror image of a countdown reaching 0)
+        sa = sources_of_expr(ctx, b, strip_refs(e[2]), mode="taint")
+        sb_ = sources_of_expr(ctx, b, strip_refs(e[3]), mode="taint")
+
+        pa = sources_of_expr(ctx, b, strip_refs(e[2]), mode="prov")
+        pb_ = sources_of_expr(ctx, b, strip_refs(e[3]), mode="prov")
+
+        def is_total(ss):
+            ps = pa if ss is sa else pb_
+            return bool(ps) and all(s.kind == "alloc" and s[4] in NODE_COUNT_FNS for s in ps)
+
+        def is_counter(ss):
+            return bool(ss) and not any(s.kind == "alloc" for s in ss) and any(s.kind == "const" and str(s[1]) in ("0", "0_usize") for s in ss) and \
+                all(s.kind in ("const", "op") for s in ss) and not any(s.kind == "op" and str(s[4]).startswith("Sub") for s in ss)
+        cnt = None
+        if is_total(sa) and is_counter(sb_):
+            cnt, tot_e = sb_, e[2]
+        elif is_total(sb_) and is_counter(sa):
+            cnt, tot_e = sa, e[3]
+        if cnt is not None:
+            equal_branch = (e[1] == "Eq") == bool(taken_true)
+            has_add = any(s.kind == "op" and str(s[4]).startswith("Add") and
+                          not (at_bb is not None and s[1] == b.id and s[2] != at_bb and at_bb not in b.reachable(s[2])) for s in cnt)
+            if not equal_branch:
+                return ("NONZERO", "count-up " + fmt_expr(e, b))
+            return ("FINISHED" if has_add else "EMPTY", "count-up " + fmt_expr(e, b))
     if e.kind == "binop" and e[1] in ("Eq", "Ne", "Le", "Gt"):
         x = None
         if is_const(e[3], 0):
@@ -187,6 +236,37 @@ def classify_value_as_guard(ctx, b, e, taken_true, at_bb=None):
         if not is_zero_branch:
             return ("NONZERO", fmt_expr(xs, b))
         return ("FINISHED" if has_sub else "EMPTY", fmt_expr(xs, b))
+    # a boolean flag assembled from several conditions (`let release = remaining == 0; let release = release || interrupted;`):
+    # set to `true` below one condition, to another condition's value elsewhere - a disjunction
+    if e.kind == "local" and taken_true and b.locals[e[1]]["s"] == "bool" and len(get_defs(b).of(e[1])) > 1:
+        alts = []
+        good = True
+        for kind_, dbb, si_, x_ in get_defs(b).of(e[1]):
+            if kind_ != "stmt" or x_["rv"]["k"] != "use":
+                good = False
+                break
+            op_ = x_["rv"]["op"]
+            if op_["k"] == "const":
+                if str(op_.get("bits", op_.get("val"))) in ("1", "true"):
+                    for sb2, de2, vals2 in cond_guards(b, dbb):
+                        tt = "otherwise" in vals2 and "0" not in vals2
+                        tf = "0" in vals2 and "otherwise" not in vals2
+                        if tt or tf:
+                            c2 = classify_value_as_guard(ctx, b, strip_refs(de2), tt, sb2)
+                            if c2 is not None and c2[0] not in ("NONZERO", "UNGUARDED"):
+                                alts.append(c2)
+                continue
+            c2 = classify_value_as_guard(ctx, b, strip_refs(expr_operand(b, op_)), True, dbb)
+            if c2 is None:
+                good = False
+                break
+            alts.append(c2)
+        if good and alts:
+            ks_ = [a_[0] for a_ in alts]
+            if len(set(ks_)) == 1:
+                return alts[0]
+            if all(k_ in ("EMPTY", "FINISHED", "INTERRUPTED", "NEVER") for k_ in ks_):
+                return ("OR:" + "+".join(ks_), " || ".join(a_[1] for a_ in alts))
     # a parameter of a crate-local helper: decided at the call sites
     pe = e
     if pe.kind == "arg":
@@ -488,6 +568,42 @@ def T1(ctx, rule="T1", kinds=None):
     for f in ("stream", "fold", "for_each", "try_fold", "try_for_each"):
         if f not in fams:
             ctx.unverifiable(rule, "floor-family|%s" % f, "-", "no public entry point of family %s discovered" % f)
+
+
+def P2(ctx, rule="P2"):
+    """no `unwrap`/`expect` on the holder of a protocol sender: `Option<Sender>` is legitimately `None` after the run was
+    interrupted, after a function failed and once everything was counted off, while functions started earlier are still
+    running and will look at it when they finish - a panic there unwinds the whole call instead of letting them complete"""
+    m, fb, fl = ctx.model, ctx.fb, ctx.model.flow
+    from rules_sched import PANICKING
+    reach = set()
+    for e in m.entries:
+        reach |= set(m.reach(e["id"]))
+    reach |= {x.id for x in fb.prod_bodies() if "fn_ref::FnRef" in x.id}
+    n = 0
+    bad = 0
+    for bid in sorted(reach):
+        b = fb.bodies.get(bid)
+        if b is None or fb.is_test_body(b):
+            continue
+        for bb, t in b.calls():
+            p_ = callee_path(t) or ""
+            if p_ not in PANICKING or not t["args"] or t["args"][0]["k"] == "const":
+                continue
+            n += 1
+            ty = t["args"][0]["pl"]["ty"]
+            if "Option<" not in ty or ("mpsc::Sender" not in ty and "mpsc::bounded::Sender" not in ty):
+                continue
+            roles, other = m.roles_of_sources(fl.sources_operand(b, t["args"][0]), half=0)
+            roles.discard(None)
+            if roles & {"DONE", "READY"}:
+                bad += 1
+                ctx.bad(rule, "sender-unwrap|%s" % short(b.id), m.where(b, bb),
+                        "%s on the %s sender's holder: the holder is emptied on interruption, on failure and when the countdown reaches 0 while "
+                        "functions started earlier are still running; when one of them gets here the call panics instead of returning" % (
+                            p_.split("::")[-1], "/".join(sorted(roles))))
+    if not bad:
+        ctx.ok(rule, "no-sender-unwrap", "-", "none of the %d unwrap/expect sites on the streaming paths is applied to the holder of a protocol sender" % n)
 
 
 def T6(ctx, rule="T6"):
@@ -1067,6 +1183,24 @@ def U1(ctx, rule="U1"):
                     srcs = sources_of_expr(ctx, cb, v[2], mode="prov")
                     if any(x.kind == "alloc" and x[4] in NODE_COUNT_FNS for x in srcs):
                         decs.append((bb, si, v))
+        if not decs:
+            # count-up form: a counter that starts at 0, is incremented, and is compared with node_count()
+            for bb, si, s in cb.stmts():
+                if s["k"] == "assign" and s["rv"]["k"] == "use":
+                    v = expr_rvalue(cb, s["rv"], 0, (bb, si))
+                    if v.kind == "binop" and v[1] == "Add":
+                        srcs = sources_of_expr(ctx, cb, v[2], mode="taint")
+                        if srcs and all(x.kind in ("const", "op") for x in srcs) and any(x.kind == "const" and str(x[1]) in ("0", "0_usize") for x in srcs):
+                            compared = False
+                            for sb2, blk2 in enumerate(cb.blocks):
+                                if blk2["term"]["k"] == "switch":
+                                    de2 = strip_refs(switch_expr(cb, sb2))
+                                    if de2.kind == "binop" and de2[1] in ("Eq", "Ne"):
+                                        c2 = classify_value_as_guard(ctx, cb, de2, True)
+                                        if c2 and c2[0] in ("FINISHED", "EMPTY", "NONZERO") and c2[1].startswith("count-up "):
+                                            compared = True
+                            if compared:
+                                decs.append((bb, si, v))
         ok = len(decs) == 1 and is_const(decs[0][2][3], 1)
         where = m.where(cb, decs[0][0], decs[0][1]) if decs else m.where(cb)
         ctx.check(ok, rule, "countdown-dec|%s" % key, where,
@@ -1087,9 +1221,19 @@ def U1(ctx, rule="U1"):
                             glist.extend(guards_of(cb, dbb))
             for sb, vals in glist:
                 de = switch_expr(cb, sb)
+                ds = strip_refs(de)
+                if ds.kind == "call" and ds[1] == "std::option::Option::<T>::is_some" and ds[2] and "0" not in vals:
+                    # `if item.is_some()` on the Option the poll function is about to yield (`ready!(rx.poll_recv(cx)).map(..)`)
+                    rs, _ = m.roles_of_sources(sources_of_expr(ctx, cb, strip_refs(ds[2][0]), mode="taint"), half=1)
+                    if "READY" in rs:
+                        g_ok = True
                 if de.kind == "discr":
                     inner = strip_refs(de[1])
                     names = spine_downcasts(inner)
+                    if names == ["Some"] and vals == frozenset(["1"]):
+                        rs, _ = m.roles_of_sources(sources_of_expr(ctx, cb, inner, mode="taint"), half=1)
+                        if "READY" in rs:
+                            g_ok = True
                     if names == ["Ready"] and vals == frozenset(["1"]):
                         # ... of the poll of the READY receiver (the value the stream yields), not of the done receiver
                         rs, _ = m.roles_of_sources(sources_of_expr(ctx, cb, inner, mode="taint"), half=1)
